@@ -6,6 +6,8 @@ import (
 	"time"
 
 	"verif/harness/model"
+	"verif/harness/scen"
+	"verif/harness/sim"
 )
 
 // NoSuppressedNotified checks every attempt: no listed alert (firing or resolved) was, over the
@@ -64,9 +66,18 @@ func APIStatus(t *Truth) *Report {
 		if ep == nil {
 			continue
 		}
-		for i := range p.Alerts {
-			ga := &p.Alerts[i]
+		filterConsistency(rep, r, &p)
+		// the statuses GET /alerts/groups reports are judged like those of GET /alerts
+		judged := append([]sim.GettableAlert{}, p.Alerts...)
+		for _, g := range p.Groups {
+			judged = append(judged, g.Alerts...)
+		}
+		for i := range judged {
+			ga := &judged[i]
 			l := ga.Labels
+			if i >= len(p.Alerts) {
+				rep.Counters["api_group_statuses_judged"]++
+			}
 			rep.Counters["api_statuses_judged"]++
 			a := r.Sils.ActiveMatching(l, p.T, true)
 			b := r.Sils.ActiveMatching(l, p.T, false)
@@ -104,7 +115,9 @@ func APIStatus(t *Truth) *Report {
 				rep.violate("api-status", "api-reports-inhibition-without-firing-source", map[string]any{"at": fmtT(r, p.T), "alert": l.Key(), "api": ga.Status.InhibitedBy})
 			}
 			wantState := "active"
-			if len(a) > 0 || sureInh {
+			if len(a) > 0 || sureInh || len(ga.Status.MutedBy) > 0 {
+				// (an alert of a group muted by a time interval is reported suppressed as well; whether mutedBy
+				// itself is right is GroupMutedBy's question)
 				wantState = "suppressed"
 			}
 			if len(a) == len(b) && sureInh == possInh && ga.Status.State != wantState && gs == strings.Join(a, ",") && gotInh == sureInh {
@@ -113,6 +126,75 @@ func APIStatus(t *Truth) *Report {
 		}
 	}
 	return rep
+}
+
+// filterConsistency: the status filters of GET /alerts and GET /alerts/groups select by the very status
+// the response reports. Soundness is judged inside one response (silenced=false never returns an alert
+// with a non-empty silencedBy, ...); completeness against the two unfiltered responses taken before and
+// after the filtered ones, for alerts whose status is the same in both.
+func filterConsistency(rep *Report, r *scen.Result, p *scen.Probe) {
+	pass := func(q string, ga *sim.GettableAlert) bool {
+		st := ga.Status
+		for _, c := range strings.Split(q, "&") {
+			switch c {
+			case "silenced=false":
+				if len(st.SilencedBy) != 0 {
+					return false
+				}
+			case "inhibited=false":
+				if len(st.InhibitedBy) != 0 {
+					return false
+				}
+			case "active=false":
+				if st.State == "active" {
+					return false
+				}
+			}
+		}
+		return true
+	}
+	stKey := func(ga *sim.GettableAlert) string {
+		st := ga.Status
+		return st.State + "|" + strings.Join(st.SilencedBy, ",") + "|" + strings.Join(st.InhibitedBy, ",")
+	}
+	after := map[string]string{}
+	for _, ga := range p.Alerts2 {
+		after[ga.Labels.Key()] = stKey(&ga)
+	}
+	for _, q := range scen.FilterQueries {
+		for name, lists := range map[string]map[string][]sim.GettableAlert{"alerts": p.Filtered, "groups": p.FilteredGroups} {
+			list, ok := lists[q]
+			if !ok {
+				continue
+			}
+			present := map[string]bool{}
+			for _, ga := range list {
+				present[ga.Labels.Key()] = true
+				rep.Counters["api_filtered_alerts_judged"]++
+				if !pass(q, &ga) {
+					if len(ga.Status.SilencedBy) > 0 && len(ga.Status.InhibitedBy) > 0 {
+						rep.Counters["api_filtered_silenced_and_inhibited"]++
+					}
+					rep.violate("api-status", "api-filter-returns-alert-whose-reported-status-it-excludes", map[string]any{"at": fmtT(r, p.T), "endpoint": name, "query": q, "alert": ga.Labels.Key(), "state": ga.Status.State, "silencedBy": ga.Status.SilencedBy, "inhibitedBy": ga.Status.InhibitedBy})
+				}
+			}
+			if name != "alerts" {
+				continue
+			}
+			for _, ga := range p.Alerts {
+				k := ga.Labels.Key()
+				if after[k] != stKey(&ga) {
+					continue
+				}
+				if len(ga.Status.SilencedBy) > 0 && len(ga.Status.InhibitedBy) > 0 {
+					rep.Counters["api_filter_probes_of_silenced_and_inhibited_alerts"]++
+				}
+				if pass(q, &ga) && !present[k] {
+					rep.violate("api-status", "api-filter-omits-alert-whose-reported-status-it-admits", map[string]any{"at": fmtT(r, p.T), "query": q, "alert": k, "state": ga.Status.State, "silencedBy": ga.Status.SilencedBy, "inhibitedBy": ga.Status.InhibitedBy})
+				}
+			}
+		}
+	}
 }
 
 // GroupMutedBy compares the mutedBy names that GET /alerts/groups reports for the alerts of a group
